@@ -17,7 +17,7 @@ from ..engine import CaseTimeout
 
 ID = "C11"
 LEVEL = "fault_enumeration"
-N = {"quick": 96, "thorough": 3000}
+N = {"quick": 128, "thorough": 3000}
 BUDGET_S = {"quick": 150, "thorough": 1500}
 RULE = ("each case = one bundle spec (biased to dated schedules, crops deeper than the default 1.2 m profile, thermal-time crops, "
         "SwitchGDD, CO2 options, custom soils) + an explicit history of 3-8 uses of the same durable objects drawn from {full run on "
